@@ -63,7 +63,7 @@ def gen_limits(rng, kind):
 
 def gen_system(rng, *, max_nodes=24, p_table=0.25, p_mux=0.3, n_sources=None, polarity=True,
                p_rt=0.0, p_limits=0.0, p_group=0.0, p_rail=0.0, phases=0.0, p_neg_args=0.15,
-               heavy=False, p_neg_src_rs=0.0, p_detour=0.25, p_bridge=0.15, p_dup=0.0):
+               heavy=False, p_neg_src_rs=0.0, p_detour=0.25, p_bridge=0.15, p_dup=0.0, p_micro=0.06, p_rename=0.0):
     """Returns a description dict.  `heavy` sizes series resistances / loads towards overload."""
     ns = n_sources if n_sources is not None else rng.choice([1, 1, 1, 2, 2, 3])
     n_total = rng.randint(ns + 1, max(ns + 1, int(rng.choice([4, 8, 12, max_nodes]))))
@@ -242,13 +242,30 @@ def gen_system(rng, *, max_nodes=24, p_table=0.25, p_mux=0.3, n_sources=None, po
     desc = {"name": "sys", "comps": comps, "phases": {}}
     if rng.random() < phases:
         add_phases(rng, desc)
+    if rng.random() < p_micro:
+        micro(rng, desc)
     if rng.random() < p_detour:
         add_detour(rng, desc)
     if rng.random() < p_bridge:
         add_bridge(rng, desc)
     elif rng.random() < p_dup:
         add_dupbridge(rng, desc)
+    if rng.random() < p_rename:
+        add_presolve_rename(rng, desc)
     return desc
+
+
+def add_presolve_rename(rng, desc):
+    """one component (sources preferred: they name the domains) is built under a temporary name, renamed after a first solve"""
+    plan = desc.get("_build") or {}
+    if any(k in plan for k in ("detour", "bridge", "dupbridge", "retouch")):
+        return
+    if any(c.get("rail") and c["rail"] in [q for d in desc["comps"] for q in d["parents"]] for c in desc["comps"]):
+        pass        # parents addressed by rail are unaffected by the rename
+    srcs = [c for c in desc["comps"] if c["kind"] == "source"]
+    pool = srcs if (srcs and rng.random() < 0.7) else desc["comps"]
+    x = rng.choice(pool)
+    desc.setdefault("_build", {})["presolve_rename"] = {"x": x["name"]}
 
 
 def add_dupbridge(rng, desc):
@@ -267,6 +284,33 @@ def add_dupbridge(rng, desc):
             k, r = rng.choice(slots)
             desc.setdefault("_build", {})["dupbridge"] = {"child": c["name"], "slot": k, "rail": r}
             return
+
+
+def micro(rng, desc):
+    """nano-power regime: every load (and its per-phase values) scaled down by 1e-4 ... 1e-7, so that currents lie around or
+    below 1e-6 A - where a tolerance used as an absolute cut-off, a rounding to six decimals or an `== 0` test turned into
+    `< eps` changes the answer"""
+    f = 10.0 ** (-rng.uniform(4, 7))
+
+    def sc(x, up=False):
+        return float("%.3g" % ((x / f) if up else (x * f)))
+    for c in desc["comps"]:
+        k, a = c["kind"], c["args"]
+        if k == "pload":
+            a["pwr"] = sc(a["pwr"])
+            if "pwrs" in a:
+                a["pwrs"] = sc(a["pwrs"])
+        elif k == "iload":
+            a["ii"] = sc(a["ii"])
+            if "iis" in a:
+                a["iis"] = sc(a["iis"])
+        elif k == "rload":
+            a["rs"] = sc(a["rs"], up=True)
+        else:
+            continue
+        if isinstance(c.get("pconf"), dict):
+            c["pconf"] = {p: sc(v, up=(k == "rload")) for p, v in c["pconf"].items()}
+    desc["_micro"] = f
 
 
 def add_bridge(rng, desc):
